@@ -527,10 +527,94 @@ type genCfg struct {
 	nastyPct          int
 	multiPct          int
 	bigPct            int
+	veryWidePct       int      // graphs whose layer width / edge multiplicity / degree sits next to 32, 64, 100, 128, 256
+	extremePct        int      // option sets whose sizes and spacings are extreme finite numbers (1e-12, 5e-324, 1e150, 1e300, ...)
 	families          []string // restrict (empty = all)
 }
 
+// famVeryWide: size thresholds. Fast paths, stack buffers, bit sets and small integer types are guarded by, or break
+// at, a width / multiplicity / degree next to a power of two or a round number; small random graphs never get there.
+// The shapes are cheap for the real algorithms (trees, bundles of parallel edges, stars), so that widths of a few
+// hundred cost milliseconds; only the sparse random two-layer shape has crossings to minimise and stays below 70.
+func famVeryWide(r *rng) ([][]string, string) {
+	t := pick(r, 32, 64, 64, 100, 128, 256)
+	w := t + r.between(-4, 6)
+	if w < 3 {
+		w = 3
+	}
+	var es [][]string
+	shape := ""
+	switch d := r.intn(100); {
+	case d < 25: // two-level tree: two adjacent layers of width w
+		shape = "tree2"
+		for i := 0; i < w; i++ {
+			es = append(es, []string{"r", fmt.Sprintf("m%d", i)}, []string{fmt.Sprintf("m%d", i), fmt.Sprintf("l%d", i)})
+		}
+	case d < 45: // a short path plus w parallel long edges: virtual nodes make the middle layers w+1 wide
+		shape = "longbundle"
+		es = append(es, []string{"a", "b"}, []string{"b", "c"}, []string{"c", "d"})
+		for i := 0; i < w; i++ {
+			es = append(es, []string{"a", "d"})
+		}
+	case d < 62: // bundles of parallel short edges to two targets (w segments side by side in one gap)
+		shape = "bundles"
+		for i := 0; i < w; i++ {
+			es = append(es, []string{"a", "b"})
+			if i%2 == 0 || r.chance(50) {
+				es = append(es, []string{"a", "c"})
+			}
+		}
+	case d < 80: // hub: one node with w out- (or in-) edges, optionally a second hub below
+		shape = "hub"
+		down := r.chance(60)
+		for i := 0; i < w; i++ {
+			if down {
+				es = append(es, []string{"h", fmt.Sprintf("s%d", i)})
+			} else {
+				es = append(es, []string{fmt.Sprintf("s%d", i), "h"})
+			}
+		}
+		if r.chance(40) {
+			for i := 0; i < w; i += 2 {
+				es = append(es, []string{fmt.Sprintf("s%d", i), "g"})
+			}
+		}
+	case d < 92: // w components / w self-loops
+		shape = "many"
+		for i := 0; i < w; i++ {
+			switch r.intn(3) {
+			case 0:
+				es = append(es, []string{fmt.Sprintf("p%d", i), fmt.Sprintf("q%d", i)})
+			case 1:
+				es = append(es, []string{fmt.Sprintf("p%d", i), fmt.Sprintf("p%d", i)}, []string{fmt.Sprintf("p%d", i), "z"})
+			default:
+				es = append(es, []string{"z", fmt.Sprintf("q%d", i)})
+			}
+		}
+	default: // sparse random two-layer graph with crossings (expensive: capped)
+		shape = "bilayer"
+		if w > 66 {
+			w = 60 + r.intn(7)
+		}
+		for j := 0; j < w; j++ {
+			for k := r.between(1, 2); k > 0; k-- {
+				es = append(es, []string{fmt.Sprintf("t%d", r.intn(w)), fmt.Sprintf("b%d", j)})
+			}
+		}
+		for i := 0; i < w; i++ {
+			es = append(es, []string{"root", fmt.Sprintf("t%d", i)})
+		}
+	}
+	if r.chance(50) {
+		shuffleEdges(r, es)
+	}
+	return es, "verywide(" + shape + ")"
+}
+
 func genGraph(r *rng, gc genCfg) ([][]string, string) {
+	if gc.veryWidePct > 0 && r.intn(1000) < gc.veryWidePct {
+		return famVeryWide(r)
+	}
 	big := r.chance(gc.bigPct)
 	var es [][]string
 	var name string
@@ -595,7 +679,15 @@ func genOptions(r *rng, es [][]string, gc genCfg) spec.Options {
 	}
 	o.P5 = pick(r, "", "polyline", "straight", "ortho", "splines", "splines", "noop")
 	integral := o.P4 == "ns" && r.chance(85)
+	extreme := o.P4 != "ns" && gc.extremePct > 0 && r.chance(gc.extremePct)
+	xnum := func() float64 {
+		// finite, non-negative, extreme: tiny, subnormal, huge, a sum of two of which overflows, not exactly representable
+		return pick(r, 1e-12, 5e-324, 1e-300, 1e-9, 1e15+0.5, 1e150, 1e300, 1.7e308, 0.1+0.2, 1.0/3.0)
+	}
 	dim := func() float64 {
+		if extreme && r.chance(50) {
+			return xnum()
+		}
 		if integral {
 			return float64(pick(r, 0, 1, 10, 20, 40, 100, 33))
 		}
@@ -628,6 +720,14 @@ func genOptions(r *rng, es [][]string, gc genCfg) spec.Options {
 	}
 	if r.chance(50) {
 		o.LayerSpacing = fptr(pick(r, 0, 1, 10, 150, 0.5, 77.7))
+	}
+	if extreme {
+		if r.chance(60) {
+			o.LayerSpacing = fptr(xnum())
+		}
+		if r.chance(60) {
+			o.NodeSpacing = fptr(xnum())
+		}
 	}
 	if r.chance(35) {
 		o.Thoroughness = uptr(pick(r, uint(0), 1, 2, 5, 28, 100))
